@@ -156,6 +156,13 @@ func (ef *Filter) Process(ctx context.Context, e *eventlogger.Event) (*eventlogg
 		return e, nil
 	}
 
+	// a zero payload has nothing to filter and is forwarded as it is: find
+	// that out before anything which could fail for lack of a wrapper, and
+	// before we copy/dup the event.
+	if reflect.ValueOf(e.Payload).IsZero() {
+		return e, nil
+	}
+
 	opts := make([]Option, 0, 3)
 	var optWrapper wrapping.Wrapper
 	if i, ok := e.Payload.(EventWrapperInfo); ok {
@@ -183,11 +190,6 @@ func (ef *Filter) Process(ctx context.Context, e *eventlogger.Event) (*eventlogg
 				return nil, fmt.Errorf("%s: missing wrapper and configured %s filter operation requires a wrapper: %w", op, filterOperation, ErrInvalidParameter)
 			}
 		}
-	}
-
-	// before we copy/dup the event, let's find out if we even need
-	if reflect.ValueOf(e.Payload).IsZero() {
-		return e, nil
 	}
 
 	// since the node will be modifying the event data (aka redact/encrypt), we
